@@ -557,6 +557,75 @@ def check_unknown(case):
     return r
 
 
+# ===================================================================================================== coverage-guided fuzzing
+def fuzz_run(pid, part, n, seed_value, stats, known, found):
+    """one libFuzzer campaign (atheris) on the unit-string parsers with the parsing oracle inside the target"""
+    import json
+    import subprocess
+    import sys
+    from .. import fuzz_parse
+    from ..core import case_hash
+    root = os.path.dirname(os.path.dirname(os.path.dirname(os.path.abspath(__file__))))
+    deps = os.path.join(root, ".deps")
+    env = dict(os.environ, PYTHONPATH=os.pathsep.join([deps, root, os.environ.get("PYTHONPATH", "")]))
+    probe = subprocess.run([sys.executable, "-c", "import atheris"], env=env, capture_output=True)
+    if probe.returncode != 0:
+        stats.labels[f"{part.name}:atheris-unavailable"] += 1
+        return
+    work = tempfile.mkdtemp(prefix="pybc_fuzz_")
+    try:
+        art = os.path.join(work, "art")
+        corpus = os.path.join(work, "corpus")
+        os.makedirs(art)
+        os.makedirs(corpus)
+        statf = os.path.join(work, "stats.json")
+        cmd = [sys.executable, "-W", "ignore", "-m", "vf.fuzz_parse", statf, art, f"-runs={n}", f"-seed={seed_value % 2 ** 31 or 1}",
+               "-max_len=40", "-print_final_stats=0", corpus]
+        pr = subprocess.run(cmd, cwd=root, env=env, capture_output=True, text=True, timeout=3600)
+        st = json.load(open(statf)) if os.path.exists(statf) else {"execs": 0}
+        execs = int(st.get("execs", 0))
+        stats.evaluations += execs
+        stats.per_part[part.name] += execs
+        for ch, c in (st.get("channels") or {}).items():
+            stats.labels[f"{part.name}:channel:{ch}"] += c
+        stats.labels[f"{part.name}:known-name"] += int(st.get("known", 0))
+        stats.labels[f"{part.name}:unknown-name"] += int(st.get("unknown", 0))
+        for i, smp in enumerate(st.get("samples") or []):
+            h = case_hash(smp)
+            if h not in stats.nontrivial:
+                stats.nontrivial.add(h)
+                if i in (1, 5):
+                    stats.samples.append({"part": part.name, "case": smp, "labels": ["decoded-fuzz-input"]})
+        # distinct decoded inputs are counted by the target; hashes of all of them are not shipped back
+        for i in range(int(st.get("distinct", 0))):
+            stats.nontrivial.add(f"fuzz-{seed_value % 9973}-{i}")
+        for fn in sorted(os.listdir(art)):
+            data = open(os.path.join(art, fn), "rb").read()
+            case = {"bytes_hex": data.hex()}
+            res = check_fuzz(case)
+            for v in res.violations:
+                if v.key in known:
+                    stats.excluded[v.key] += 1
+                else:
+                    found.append({"part": part.name, "case": case, **v.as_dict()})
+            if not res.violations and pr.returncode != 0:
+                found.append({"part": part.name, "case": case, "key": "C18:fuzz:target-crashed", "message": (pr.stderr or "")[-600:], "details": {}})
+    finally:
+        shutil.rmtree(work, ignore_errors=True)
+
+
+def check_fuzz(case):
+    """replay of a saved fuzz input (no atheris needed)"""
+    from .. import fuzz_parse
+    r = Res()
+    decoded = fuzz_parse.decode(bytes.fromhex(case["bytes_hex"]))
+    for key, msg in fuzz_parse.oracle(decoded):
+        r.bad(key, msg, decoded=decoded)
+    lib.reset_state()
+    r.nontrivial = True
+    return r
+
+
 def parts(tier):
     return [
         Part("settings", strategy=_settings_case(), check=check_settings, n={"quick": 1200, "thorough": 24000}),
@@ -566,11 +635,12 @@ def parts(tier):
         Part("names-exhaustive", kind="enum", cases=_name_cases, check=check_names, exhaustive=True),
         Part("names-generated", strategy=_gen_name_case(), check=check_gen_name, n={"quick": 6000, "thorough": 200000}),
         Part("unknown-names", strategy=_unknown_case(), check=check_unknown, n={"quick": 4000, "thorough": 100000}),
+        Part("parse-fuzz", kind="custom", run=fuzz_run, check=check_fuzz, n={"quick": 120000, "thorough": 6400000}, max_shards=16),
     ]
 
 
 MANIFEST = {
-    "technique": "Hypothesis-generated solver configurations observed through their effects; rule-based state machine for global/local step; exhaustive enumeration of unit names and aliases x case variants x parse channels; generated case masks, prefixes and unknown names",
+    "technique": "Hypothesis-generated solver configurations observed through their effects; rule-based state machine for global/local step; exhaustive enumeration of unit names and aliases x case variants x parse channels; generated case masks, prefixes and unknown names; coverage-guided fuzzing (atheris/libFuzzer) of the string parsers with the oracle inside the target",
     "text": "Each of the solver settings is observed to govern its calculator (step trace, limits vs lax-limit trace, gravity vs closed form, iteration cap by counting integrations, defaults); histories of global-step set/reset and calculator creation "
             "keep every calculator at its creation-time step, non-positive values rejected; every enumeration name and alias resolves to its unit in every letter case through _parse_unit, PreferredUnits.set, _parse_value and a written pybc.toml; unknown names change nothing. "
             "Exploration level; the name/alias table is exhaustive.",
